@@ -286,9 +286,12 @@ impl Prop for PCli {
     }
 }
 
-const JUNK: [&[u8]; 22] = [
+const JUNK: [&[u8]; 53] = [
     b"", b"\xc3\xa9", b"%", b"\\", b"[", b"[[:", b"[[:alpha:", b"99999999999999999999999", b"-1", b"+", b"a b", b"*", b"{}", b";", b"'", b"%\xc3\xa9",
     b"%99999999999999999999d", b"\\1\xc3\xa9", b"[a-", b"[!", b"\\", b"x\xff",
+    // numbers in other clothes, flags and escapes a printf might know, operators as operands
+    b"-", b"+0", b"-0", b"0x10", b"1e3", b"1.5", b" 7", b"7 ", b"\xd9\xa3", b"\xef\xbc\x91\xef\xbc\x92", b"\xc2\xb2", b"18446744073709551616", b"-9223372036854775809",
+    b"%.5p", b"%#p", b"%+5d", b"% d", b"%05d", b"%-", b"%5", b"\\c", b"\\x41", b"\\N", b"%%%", b"%{", b"%(", b"%Tz", b"%A@x", b"(", b")", b"!",
 ];
 
 fn pick_bytes(rng: &mut Rng, good: &[&[u8]], near: &[&[u8]]) -> Vec<u8> {
